@@ -12,6 +12,7 @@ META = {
     "level": "Decides: (R1) header and trailer structs are 16 bytes each with the documented magics; the trailer stores index+data+24 (trailer size + 8, the format's historical off-by-8) and the reader seeks back that value + 8, landing on the header; the reader's first seek equals the trailer size and its per-key stride equals the writer's per-key fixed overhead (12 bytes); (R2) write_xpak seeks to the old segment's start (or end of file) before any write, writes header, payload and trailer in order, then truncates and closes on every path; (R3) every length recorded in the index is the length of the encoded bytes actually written, and the reader decodes every value except environment*. Does NOT decide byte-level equality for concrete mappings.",
     "note": "XPAK layout constants are the on-disk format shared with portage (frozen: stored offset = index + data + 24; reader adds 8)",
 }
+META["technique"] += "; " + 'generic pack G on the anchored files (optional-flag shift, closures outliving a loop iteration, single-pass iterables consumed twice, %-templates built from data, in-place writes to class-level / memoised objects, generators mutating what they yielded, memo keys that are projections)'
 MOD = "pkgcore.binpkg.xpak"
 
 
